@@ -20,7 +20,11 @@ class Round:
         self.new = list(new)
         self.pre_pools = [(p.avail_cpu_pool, p.avail_ram_pool, p.max_cpu_pool, p.max_ram_pool) for p in ex.pools]
         self.pre_active = [[(c.container_id, c.priority.name, c) for c in p.active_containers] for p in ex.pools]
-        self.pre_states = {op: SV[id(s)] for pl in w.pipelines for op, s in pl.runtime_status().operator_states.items()}
+        if len(w.pipelines) > 96:
+            # many pipelines: the transition log's shadow is the state of every operator that ever moved; the others are pending
+            self.pre_states = _Pre(w.shadow)
+        else:
+            self.pre_states = {op: SV[id(s)] for pl in w.pipelines for op, s in pl.runtime_status().operator_states.items()}
 
     def done(self, w, sus, asg):
         self.sus = list(sus)
@@ -30,12 +34,23 @@ class Round:
             self.free_after.append((cpu - sum(a.cpu for a in asg if a.pool_id == pid), ram - sum(a.ram for a in asg if a.pool_id == pid)))
 
 
+class _Pre(dict):
+    """operator -> state before the round, from the transition log (an operator the log never saw is pending)"""
+
+    def get(self, k, d=None):
+        return dict.get(self, k, P if d is None else d)
+
+    def __missing__(self, k):
+        return P
+
+
 class PolicyMonitor:
     def __init__(self, w, algo):
         self.w = w
         self.algo = algo
         self.first_seen = {}      # pipeline -> arrival index
-        self.first_container = []  # pipelines in the order they got their first container
+        self.first_container = {}  # pipelines that got a first container (insertion-ordered)
+        self.waiting_first = {}    # class name (or None) -> {pipeline: arrival index} still without a first container, in arrival order
         self.failed_containers = {}
         self.abandon = {}         # frozenset(ops) -> reason, for C16
         self.retry_sets = []      # (ops tuple expected together)
@@ -50,6 +65,8 @@ class PolicyMonitor:
     def arrivals(self, new):
         for p in new:
             self.first_seen[p] = self.n_arrived
+            self.waiting_first.setdefault(p.priority.name, {})[p] = self.n_arrived
+            self.waiting_first.setdefault(None, {})[p] = self.n_arrived
             self.n_arrived += 1
 
     def check(self, rd):
@@ -66,7 +83,19 @@ class PolicyMonitor:
         for a in rd.asg:
             pl = a.ops[0].pipeline
             if pl not in self.first_container:
-                self.first_container.append(pl)
+                self.first_container[pl] = True
+                self.waiting_first.get(pl.priority.name, {}).pop(pl, None)
+                self.waiting_first.get(None, {}).pop(pl, None)
+
+    def finish(self):
+        """end of the run: if the cluster has drained (no container left) nothing that had to be retried may still be waiting"""
+        w = self.w
+        if self.algo != "priority-pool" or any(p.active_containers or p.suspending_containers for p in w.executor.pools):
+            return
+        for exp, abandoned, info in self.retry_sets:
+            if not abandoned and all(o.state().value == F for o in exp):
+                self.flag("C16", "failed-work-never-retried", f"{sorted(self.name(o) for o in exp)} failed in {info}, the doubled request is below half of the pool, "
+                          f"the cluster is idle at the end of the run, and the work was neither retried nor abandoned")
 
     # ------------------------------------------------------------------ naive
     def check_naive(self, rd, pid="C17", single=None):
@@ -97,20 +126,21 @@ class PolicyMonitor:
 
     def fifo_first(self, rd, pid, by_class):
         """first containers in arrival order (optionally per priority class)"""
-        got = list(self.first_container)
+        got = set()
         for a in rd.asg:
             pl = a.ops[0].pipeline
-            if pl in got:
+            if pl in self.first_container or pl in got:
                 continue
-            for other, idx in self.first_seen.items():
+            mine = self.first_seen.get(pl, 1 << 30)
+            # the earliest-arrived pipeline (of that class) that still has no first container, this round's included
+            for other, idx in self.waiting_first.get(pl.priority.name if by_class else None, {}).items():
                 if other in got or other is pl:
                     continue
-                if by_class and other.priority != pl.priority:
-                    continue
-                if idx < self.first_seen.get(pl, 1 << 30):
+                if idx < mine:
                     self.flag(pid, "first-container-out-of-arrival-order",
                               f"{pl.pipeline_id} (arrival #{self.first_seen.get(pl)}) got its first container while earlier {other.pipeline_id} (arrival #{idx}) has none")
-            got.append(pl)
+                break      # (arrival order: the first one decides)
+            got.add(pl)
 
     # --------------------------------------------------------------- overbook
     def check_overbook(self, rd):
